@@ -408,7 +408,11 @@ func sweepCases(yield func(*WCase)) {
 			for mode := 0; mode < 2; mode++ {
 				switch {
 				case k.isLen:
-					for _, l := range []int{0, 1, 2, 127, 128, 16383, 16384} {
+					lens := []int{0, 1, 2, 7, 8, 9, 127, 128, 16383, 16384}
+					if num == nums[0] || num == nums[len(nums)-1] || num == 1<<25 {
+						lens = append(lens, 1<<21-1, 1<<21) // 4-byte length prefix (with a 1- and a 5-byte key)
+					}
+					for _, l := range lens {
 						data := bytes.Repeat([]byte{'x'}, l)
 						yield(&WCase{Kind: k.name, Num: num, Mode: mode, Data: data})
 					}
